@@ -115,6 +115,8 @@ def long_cases(rnd, quick):
     return out
 
 
+S5_SWEEP_QUICK = [16384, 32769, 300007]          # one socket block, two blocks + 1, many reads
+S5_SWEEP_THOROUGH = [1000, 16383, 16384, 16385, 32767, 32768, 32769, 65536, 262144, 300007, 1048583, 3145728]
 S5_UNITS_QUICK = [1000]
 S5_UNITS_THOROUGH = [1, 1000, 20000]     # 20000 > the jobs' 16384-byte socket block
 
@@ -164,6 +166,18 @@ def run_s5(chk, quick, rnd, replay_execs=None):
                     continue
                 size = b["n"] * 1000 - (i % 2 if b["n"] > 0 else 0)
                 execs.append(dict(b, method="socks5", unit=1000, size=size, ann=ann, cseed=rnd.getrandbits(40)))
+        # fault-free size sweep relative to the socket block (16 KiB) and to what one readyRead delivers, for every
+        # announcement: 0 and 1 byte are the classes above; here one block, two blocks +- 1, many reads
+        clean = {b["n"]: b for b in classes if not any(st["a"] == "Fault" for st in b["steps"])}
+        sweep_sizes = S5_SWEEP_QUICK if quick else S5_SWEEP_THOROUGH
+        for ann in ["both"] + OTHER_ANNS:
+            for size in sweep_sizes:
+                n = min(size, max(clean))
+                unit = (size + n - 1) // n
+                if (size + unit - 1) // unit != n:
+                    continue
+                execs.append(dict(clean[n], method="socks5", unit=unit, size=size, ann=ann, cseed=rnd.getrandbits(40), kind="sweep"))
+        chk.cov["generation"]["socks5_size_sweep"] = {"sizes": sweep_sizes, "announcements": 4}
     if not execs:
         return [], {}, {"cases": 0, "lines": 0, "viol": [], "ndiv": 0, "divs": [], "faulted": 0, "clean": 0, "wall_s": 0}
     vf.write_ndjson(chk.path("behaviours-s5.ndjson"), execs)
